@@ -386,12 +386,16 @@ impl Responder {
             let status = carrier.send_transaction(&tracker.penalty_tx);
             if let ConfirmationStatus::Rejected(_) = status {
                 rejected.push(uuid);
-            } else {
-                // DISCUSS: What if the tower was down for some time and was later force updated while this penalty got on-chain?
-                // Sending it will yield `ConfirmationStatus::IrrevocablyResolved` which would panic here.
-                // We might want to replace `ConfirmationStatus::IrrevocablyResolved` variant with
-                // `ConfirmationStatus::ConfirmedIn(height - IRREVOCABLY_RESOLVED)
+            } else if status.accepted() {
                 dbm.update_tracker_status(uuid, &status).unwrap();
+            } else {
+                // The node already has the penalty in its chain (`ConfirmationStatus::IrrevocablyResolved`), i.e. it was
+                // confirmed in a block we have not processed yet (the node is ahead of us). That status cannot be stored,
+                // and there is nothing to store: the confirmation will be recorded when we get to that block.
+                log::info!(
+                    "Penalty transaction is already in the chain: {}",
+                    tracker.penalty_tx.compute_txid()
+                );
             }
         }
 
